@@ -363,6 +363,11 @@ func (f *Frame) enterLoop(h *ssa.BasicBlock, li *loopInfo, live []inEdge, header
 		cur := c.heapGet(st, k, c.eng.keySort(k))
 		c.setHeap(st, k, c.fresh("loopheap", cur.Sort))
 	}
+	// ghost call records are unknown in an arbitrary iteration
+	for k := range st.Ghost {
+		st.Ghost[k] = c.fresh("loopghost", SBool)
+	}
+	st.GhostUnknown = true
 	for cell := range cells {
 		st.Cells[cell] = c.freshLeaves("loopcell_"+cell.Name, cell.Typ)
 		st.assume(c, typeInv(cell.Typ, st.Cells[cell]))
